@@ -200,3 +200,22 @@ Definition g_real_sample : glyph :=
                 mkPoint f1 f0 Off false None None None;
                 mkPoint f1 f1 QCurve true None None None] (Some [99]) None]
     [([97], PInt 1); ([98], PDict [([99], PStr [120]); ([100], PArr [PInt 2; PStr [121]])])].
+
+(** ** closedness of the plist-layer readers (for C04): each reader returns values its writer
+    represents; metainfo with norad's creator is writable; the keys of contents.plist are valid
+    names ([Name]'s deserialiser); the identifiers the font-info reader returns are writable plist
+    keys ([Identifier::new] admits printable ASCII only — the C13 model does not carry that check) *)
+Record codecs_closed (K : codecs) : Prop := {
+  kc_lib : part_closed (K_lib K); kc_groups : part_closed (K_groups K); kc_kerning : part_closed (K_kerning K);
+  kc_lc : part_closed (K_lc K); kc_contents : part_closed (K_contents K); kc_li : part_closed (K_li K);
+  kc_meta_norad : forall mi, wf (K_meta K) {| m_creator := Some NORAD_CREATOR; m_version := 3; m_minor := mi |};
+  kc_contents_names : forall c l, dec (K_contents K) c = Some l -> Forall (fun e => name_valid (fst e) = true) l;
+  kc_info_ids : forall r i, FI.fi_load r = Ok i ->
+                forall gs, FI.i_guides i = Some gs -> Forall (fun g => forall id, FI.g_id g = Some id -> K_wf_key K id) gs }.
+
+(** what the real glif reader does NOT guarantee about a glyph it returns, and the round trip needs:
+    finite numbers (str::parse::<f64> accepts inf and NaN), lib values the plist writer and reader
+    agree on, outside F3 (no line break in lib text; a surviving note), canonical form *)
+Definition glyph_rt_domain (pf : str -> option fl) (ff3 : fl -> str) (g : glyph) : Prop :=
+  glyph_finite g /\ libs_valid g = true /\ libs_plain g = true /\ note_survives (gnote g) = true /\
+  glyph_canon pf ff3 g.
